@@ -167,7 +167,11 @@ func VerifC08EncodedSlash() {
 	y := verifapi.NondetByteRange("y", 'a', 'z')
 	slash := []string{"%2F", "%2f"}[verifapi.NondetChoice("hex_case", 2)]
 	var seg, decoded string
-	switch verifapi.NondetChoice("position", 4) {
+	realSlash := false
+	switch verifapi.NondetChoice("position", 5) {
+	case 4: // a real and an encoded slash in what a free wildcard captures (two segments)
+		realSlash = true
+		seg, decoded = string([]byte{x})+"/"+string([]byte{y})+slash+"z", string([]byte{x})+"/"+string([]byte{y})+"/z"
 	case 0:
 		seg, decoded = slash+string([]byte{x, y}), "/"+string([]byte{x, y})
 	case 1:
@@ -182,14 +186,20 @@ func VerifC08EncodedSlash() {
 	repo := vC08Repo(shape, slashes, "zz", pp)
 
 	// optionally followed by a character net/url does not accept unencoded in an escaped path
-	tail := []string{"", "{"}[verifapi.NondetChoice("unencoded-brace-follows", 2)]
-	got, ok := vC08Run(repo, "/a/"+seg+tail)
+	head, tail := "", ""
+	switch verifapi.NondetChoice("unencoded-brace", 3) {
+	case 1:
+		tail = "{"
+	case 2:
+		head = "{"
+	}
+	got, ok := vC08Run(repo, "/a/"+head+seg+tail)
 	if !ok {
 		verifapi.Assert("C08/request-line-parses", false)
 		return
 	}
 	offOrDefault := setting <= 1 || got.rule == "default" || shape == 5
-	if tail != "" && !offOrDefault && got.rule != "" {
+	if head+tail != "" && !offOrDefault && got.rule != "" {
 		verifapi.Cover("brace-with-slashes-allowed") // the expected spellings below are for the plain segment only
 		return
 	}
@@ -205,7 +215,7 @@ func VerifC08EncodedSlash() {
 		verifapi.Cover("no-decode")
 		verifapi.Assert("C08/no-decode-accepts", got.err == nil && got.upstream != nil)
 		verifapi.Assert("C08/no-decode-keeps-slash-encoded-in-captures",
-			strings.EqualFold(got.captures["v"], seg) && !strings.Contains(got.captures["v"], "/"))
+			strings.EqualFold(got.captures["v"], seg) && (realSlash || !strings.Contains(got.captures["v"], "/")))
 		verifapi.Assert("C08/no-decode-keeps-slash-encoded-upstream", strings.EqualFold(got.upstream.EscapedPath(), "/a/"+seg))
 	default:
 		verifapi.Cover("on")
